@@ -103,3 +103,256 @@ def soups(ctx, n, salt="soup"):
 
 def corpus_cases():
     return [(l, t) for (l, _, t) in corpus.files()]
+
+
+# ------------------------------------------------------------------------------------------------------------------
+# size ladders, configuration variants of a text (byte order mark, no newline at all, Unicode separators)
+# ------------------------------------------------------------------------------------------------------------------
+
+# geometric ladder, ratio sqrt(10): every size dimension (characters without a newline, lines of one function, lines of a
+# file of many functions, simultaneous insertions) is swept over these rungs instead of one "moderate" size
+LADDER = [10, 32, 100, 316, 1000, 3162, 10 ** 4, 31623, 10 ** 5, 316228, 10 ** 6, 3162278]
+
+BOM = "\ufeff"
+# characters at which str.splitlines() / some editors break a line although the text has no "\n" there; every shipped
+# lexer classifies them as white space (checked per use on the real lexer's raw stream)
+SEPARATORS = ["\x0b", "\x0c", "\x1c", "\x1d", "\x1e", "\x85", "\u2028", "\u2029"]
+BLANKS = ["\xa0", "\u2003", "\u3000", "\x1f"]
+
+
+def rungs(lo, hi, decades_only=False):
+    return [n for n in LADDER if lo <= n <= hi and (not decades_only or len(str(n).strip("0")) == 1 and str(n)[0] == "1")]
+
+
+def heavy_map(fn, items, workers=12):
+    """process pool with one item per task (the expensive rungs must not queue up behind each other)"""
+    from concurrent.futures import ProcessPoolExecutor
+    items = list(items)
+    if len(items) <= 1:
+        return [fn(x) for x in items]
+    with ProcessPoolExecutor(max_workers=min(workers, len(items))) as ex:
+        return list(ex.map(fn, items, chunksize=1))
+
+
+class Heavy:
+    """heavy_map that runs in the background: the tasks start now, `results()` collects them later (the caller goes on
+    with the model / the small inputs in between)"""
+
+    def __init__(self, fn, items, workers=8):
+        from concurrent.futures import ProcessPoolExecutor
+        self.items = list(items)
+        self.ex = ProcessPoolExecutor(max_workers=max(1, min(workers, len(self.items)))) if self.items else None
+        self.futs = [self.ex.submit(fn, x) for x in self.items]
+
+    def results(self):
+        try:
+            return [f.result() for f in self.futs]
+        finally:
+            if self.ex is not None:
+                self.ex.shutdown()
+
+
+def chunked_map(fn, cases, workers=16):
+    """fn(list of cases) -> list of results, over a process pool, order kept (scan_real.real_scan_many with a caller-supplied
+    worker: lets a check evaluate its direct oracle next to the real analysis instead of serially afterwards)"""
+    from concurrent.futures import ProcessPoolExecutor
+    cases = list(cases)
+    if len(cases) < 64:
+        return fn(cases)
+    k = max(8, (len(cases) + workers * 4 - 1) // (workers * 4))
+    chunks = [cases[i:i + k] for i in range(0, len(cases), k)]
+    with ProcessPoolExecutor(max_workers=workers) as ex:
+        outs = list(ex.map(fn, chunks))
+    return [x for o in outs for x in o]
+
+
+def _scan_one(case):
+    import scan_real
+    return scan_real.real_scan(case[0], case[1])
+
+
+def real_scan_heavy(cases, workers=12):
+    """like scan_real.real_scan_many, one input per task, largest first"""
+    order = sorted(range(len(cases)), key=lambda i: -len(cases[i][1]))
+    res = heavy_map(_scan_one, [cases[i] for i in order], workers)
+    out = [None] * len(cases)
+    for i, r in zip(order, res):
+        out[i] = r
+    return out
+
+
+def model_scan_heavy(reqs):
+    """one model driver process per request (scan_real.model_scan_many puts neighbours into one shard)"""
+    return sr.model_scan_many(reqs, shards=max(1, len(reqs)))
+
+
+# ---- programs of a given size -------------------------------------------------------------------------------------
+
+def ladder_program(desc):
+    """deterministic: the program described by {"language", "kind": "single"|"many", "lines", "gen_seed"}"""
+    import random
+    rnd = random.Random(desc["gen_seed"])
+    if desc["kind"] == "single":
+        o = programs.generate(desc["language"], rnd, sweep=desc["lines"])
+    else:
+        o = programs.generate(desc["language"], rnd, min_lines=desc["lines"])
+    text = o.text(desc.get("trailing_newline", True))
+    if desc.get("sha1") not in (None, _sha1(text)):
+        print("note: the program generator has changed since this description was written (text hash %s, recorded %s)" % (_sha1(text), desc["sha1"]))
+    return o, text
+
+
+def _sha1(text):
+    import hashlib
+    return hashlib.sha1(text.encode("utf-8", "surrogatepass")).hexdigest()[:12]
+
+
+def ladder_programs(ctx, single, many, salt="ladder", many_python=None):
+    """size ladder over the length of ONE function (`single`: body statements) and over the number of functions of a file
+    (`many`: lines of a program that keeps growing by functions, classes, global code); -> [(lang, text, Out, desc)]"""
+    rnd = ctx.rng(salt)
+    out = []
+    for lang in LANGS:
+        plan = [("single", n) for n in single] + [("many", n) for n in (many_python if (lang == "Python" and many_python is not None) else many)]
+        for (kind, n) in plan:
+            desc = {"stream": "ladder", "language": lang, "kind": kind, "lines": n, "gen_seed": rnd.getrandbits(48)}
+            o, text = ladder_program(desc)
+            desc["sha1"] = _sha1(text)
+            out.append((lang, text, o, desc))
+    return out
+
+
+# ---- one very long line -------------------------------------------------------------------------------------------
+
+LONG_SHAPES = ("literal", "comment", "tokens", "fn")
+LONG_LAYOUTS = ("alone", "alone-newline", "second-line")
+
+
+def long_line(lang, shape, n, layout):
+    """a text with ONE line of at least n characters:
+    literal  - a string literal of n characters followed by more code on the line
+    comment  - a block comment of n characters followed by a function on the line (Python: a long literal in a call)
+    tokens   - n characters of short statements
+    fn       - a function whose whole body of short statements stands on the header's line
+    layout: the long line alone without any newline / with a final newline / as second of three lines"""
+    py = lang == "Python"
+    wrap = ("class K { ", " }") if lang in ("Java", "C#") else ("", "")
+    if shape == "literal":
+        line = 's = "%s"; x = 1%s' % ("a" * n, "" if py else ";")
+    elif shape == "comment":
+        if py:
+            line = 'x = g("%s", 1); y = 2  # %s' % ("b" * (n // 2), "c" * (n // 2))
+        else:
+            line = "/*%s*/ %svoid f(int a) { x = 1; }%s" % ("c" * n, wrap[0], wrap[1])
+    elif shape == "tokens":
+        line = ("x = 1; " * (n // 7 + 1)).rstrip()
+    else:
+        body = ("x = 1; " * (n // 7 + 1)).rstrip()
+        line = ("def f(a): %s" % body) if py else "%svoid f(int a) { %s }%s" % (wrap[0], body, wrap[1])
+    if layout == "alone":
+        return line
+    if layout == "alone-newline":
+        return line + "\n"
+    return ("import os\n" if py else "// first line\n") + line + "\n" + ("y = 3\n" if py else "int y;\n")
+
+
+def long_text(desc):
+    return (BOM if desc.get("bom") else "") + long_line(desc["language"], desc["shape"], desc["chars"], desc["layout"])
+
+
+def long_lines(ctx, light, heavy, per_rung=2, salt="long", full_upto=316):
+    """single-line ladder. `light`: sizes for the shapes with a handful of tokens (literal, comment) - affordable up to
+    several million characters; `heavy`: sizes for the shapes whose token count grows with the size (tokens, fn).
+    Up to `full_upto` characters every language x shape x layout; up to 10^4 every language x shape with a rotating
+    layout; above that `per_rung` languages per (size, shape), rotating with the seed, and the three layouts rotating so
+    that each occurs at every size. -> [(lang, text, desc)]"""
+    import common
+    s = common.seed() + ctx.rng(salt).randrange(7)
+    out = []
+    for shape_i, shape in enumerate(LONG_SHAPES):
+        for r_i, n in enumerate(sorted(set(light if shape in ("literal", "comment") else heavy))):
+            if n <= full_upto:
+                combos = [(lang, lay) for lang in LANGS for lay in LONG_LAYOUTS]
+            elif n <= 10 ** 4:
+                combos = [(lang, LONG_LAYOUTS[(s + r_i + shape_i + j) % 3]) for j, lang in enumerate(LANGS)]
+            else:
+                combos = [(LANGS[(s + r_i + 2 * shape_i + 3 * j) % len(LANGS)], LONG_LAYOUTS[(s + r_i + shape_i + j) % 3]) for j in range(per_rung)]
+                if per_rung >= len(LANGS):
+                    combos = [(lang, LONG_LAYOUTS[(s + r_i + shape_i + j) % 3]) for j, lang in enumerate(LANGS)]
+            for c_i, (lang, lay) in enumerate(combos):
+                desc = {"stream": "long-line", "language": lang, "shape": shape, "chars": n, "layout": lay}
+                if (s + r_i + shape_i + c_i) % 4 == 0:
+                    desc["bom"] = True          # configuration variant: the file was saved with a UTF-8 signature
+                out.append((lang, long_text(desc), desc))
+    return out
+
+
+def bisect_size(fails, lo, hi, budget_s=8.0):
+    """smallest n in (lo, hi] with fails(n), assuming fails(hi) and a monotone failure; time-boxed"""
+    import time
+    t0 = time.time()
+    while hi - lo > 1 and time.time() - t0 < budget_s:
+        mid = (lo + hi) // 2
+        try:
+            bad = fails(mid)
+        except Exception:
+            bad = True
+        if bad:
+            hi = mid
+        else:
+            lo = mid
+    return hi
+
+
+# ---- variants of a text that are legal inputs under every property about texts ------------------------------------
+
+def one_line(o):
+    """a canonical brace-language program rendered on ONE line without any newline: the code segments of its lines
+    joined by blanks (comments, which would swallow the rest of the line, and preprocessor lines left out); None for
+    Python (its block structure needs the lines) and for programs with a token that spans lines"""
+    if o.lang == "Python":
+        return None
+    parts = []
+    for segs in o.lines:
+        t = "".join(text for (text, owner, code) in segs if code).strip()
+        if t.startswith("#") or not t:
+            continue
+        parts.append(t)
+    return " ".join(parts)
+
+
+def with_bom(text, expected):
+    """a program behind a byte order mark and its expectation: U+FEFF is one more character on line 1 (the lexers report
+    it as an Error token in front of everything: never part of a header or a body)"""
+    return BOM + text, [(n, sl, sc + (1 if sl == 1 else 0), el, ec + (1 if el == 1 else 0), ln) for (n, sl, sc, el, ec, ln) in expected]
+
+
+def collapse_newlines(text):
+    """the same characters on ONE line without any newline (lexing takes its no-newline path)"""
+    return text.replace("\n", " ")
+
+
+def decorate(ctx, cases, share=0.15, salt="decor", limit=20000):
+    """for a share of the (lang, text) cases: the text behind a byte order mark (what Scanner._read_file returns for a
+    file saved with a UTF-8 signature), the text on one line without any newline, both, and the text with one blank
+    replaced by a Unicode separator / exotic blank. -> new (lang, text) cases"""
+    rnd = ctx.rng(salt)
+    out = []
+    for (lang, text) in cases:
+        if not text or len(text) > limit or rnd.random() >= share:
+            continue
+        k = rnd.random()
+        if k < 0.3:
+            out.append((lang, BOM + text))
+        elif k < 0.5:
+            out.append((lang, collapse_newlines(text)))
+        elif k < 0.75:
+            out.append((lang, BOM + collapse_newlines(text)))
+        elif k < 0.85:
+            out.append((lang, BOM + text.rstrip("\n")))
+        else:
+            spots = [i for i, c in enumerate(text) if c == " "]
+            if spots:
+                i = rnd.choice(spots)
+                out.append((lang, text[:i] + rnd.choice(SEPARATORS + BLANKS) + text[i + 1:]))
+    return out
